@@ -12,6 +12,51 @@ import (
 
 func init() { Registry["C07"] = c07 }
 
+// slotMutexSpansLoop: multi-token acquisition is atomic with respect to other acquirers (C07.R1, shared with
+// C05 as its R9: the non-atomic form lets two multi-core tasks each hold a part of their tokens forever).
+func (e *Env) slotMutexSpansLoop(rule string) {
+	r := e.R
+	a := e.anchors()
+	ob1b := r.Ob(rule, "acquire:mutex-spans-loop", "the slot mutex is held across the whole token loop (at the loop test on every iteration), so a task's tokens are deposited atomically with respect to other acquirers: two multi-core tasks can never each hold a part of their tokens")
+	if !a.ok() || len(a.acquire) != 1 {
+		ob1b.Unknown("-", "acquire function not unique")
+		return
+	}
+	ga := e.XG(a.acquire[0])
+	if ga == nil {
+		return
+	}
+	la := e.locksets(ga)
+	isSlotMx := func(n *core.Node) bool { return lockOp(n) != "" && lockField(n) == interface{}(a.slotMutex) }
+	var mxBit core.Bits
+	for _, n := range ga.Select(isSlotMx) {
+		mxBit |= la.bit[la.keyOf[n]]
+	}
+	n0 := 0
+	for _, n := range ga.Select(a.isSlotSend) {
+		n0++
+		las := iterLoops(ga, n)
+		if len(las) == 0 {
+			ob1b.Fail(ga.Where(n), "the slot send is not inside a token loop")
+			continue
+		}
+		_, iff := core.HeaderTest(las[0].L)
+		found := false
+		for _, m := range ga.Nodes {
+			if iff != nil && m.Instr == ssa.Instruction(iff) && m.Ctx == las[0].At.Ctx {
+				found = true
+				ob1b.Check(mxBit != 0 && la.must[m]&mxBit != 0, ga.Where(m), "mutex held at the loop test", "at the token loop's test the slot mutex is not certainly held (it is released between two sends): with CoresPerTask >= 2 two tasks can each deposit a part of their tokens and block each other forever")
+			}
+		}
+		if !found {
+			ob1b.Unknown(ga.Where(n), "loop test of the token loop not found")
+		}
+	}
+	if n0 == 0 {
+		ob1b.Unknown(core.FuncName(a.acquire[0]), "no slot send in the acquire function")
+	}
+}
+
 func c07(e *Env) {
 	r := e.R
 	r.Explanation = "Structural necessary conditions of slot progress, decided on all paths: (R1) every slot-channel send is executed with the slot mutex held, so multi-token acquisitions of different tasks cannot interleave and starve each other; (R2) the release function acquires no mutex and performs no blocking operation other than its slot receives, so a blocked acquirer (which waits while holding the mutex) can always be unblocked; (R3) every Lock in acquire is followed by its Unlock on all returning paths; (R4) Process.Run rejects exactly CoresPerTask > cap(slots) by a never-returning call before the task-creation goroutine is started, and does not reject cores == max; (R5) no second gate: no mutex is (possibly) held while a task's command / Go function runs, and the only blocking channel operations between Execute's entry and the command are the slot sends; (R6) acquire/release pairing (a leaked token is a later deadlock)."
@@ -40,25 +85,7 @@ func c07(e *Env) {
 	for _, n := range ga.Select(a.isSlotSend) {
 		ob1.Check(mxBit != 0 && la.must[n]&mxBit != 0, ga.Where(n), "must-held lockset = {"+strings.Join(la.held(la.must[n]), ",")+"}", "slot send with must-held lockset {"+strings.Join(la.held(la.must[n]), ",")+"}: the slot mutex is not held on every path")
 	}
-	ob1b := r.Ob("R1", "acquire:mutex-spans-loop", "the slot mutex is held across the whole token loop (at the loop test on every iteration), so a task's tokens are deposited atomically with respect to other acquirers: two multi-core tasks can never each hold a part of their tokens")
-	for _, n := range ga.Select(a.isSlotSend) {
-		las := iterLoops(ga, n)
-		if len(las) == 0 {
-			ob1b.Fail(ga.Where(n), "the slot send is not inside a token loop")
-			continue
-		}
-		_, iff := core.HeaderTest(las[0].L)
-		found := false
-		for _, m := range ga.Nodes {
-			if iff != nil && m.Instr == ssa.Instruction(iff) && m.Ctx == las[0].At.Ctx {
-				found = true
-				ob1b.Check(mxBit != 0 && la.must[m]&mxBit != 0, ga.Where(m), "mutex held at the loop test", "at the token loop's test the slot mutex is not certainly held (it is released between two sends): with CoresPerTask >= 2 two tasks can each deposit a part of their tokens and block each other forever")
-			}
-		}
-		if !found {
-			ob1b.Unknown(ga.Where(n), "loop test of the token loop not found")
-		}
-	}
+	e.slotMutexSpansLoop("R1")
 	ob3 := r.Ob("R3", "acquire:Lock→Unlock", "every Lock of the slot mutex is followed by its Unlock on every path on which acquire returns")
 	afterUnlock := ga.BackwardMust(func(n *core.Node) core.Bits {
 		if lockOp(n) == "unlock" && isSlotMx(n) {
